@@ -55,9 +55,19 @@ def Op.isWrite : Op → Bool
   | .write _ => true
   | _ => false
 
+/-- why `ConfigOptions::apply` rejects an option value (the error kinds of commands/config.rs). -/
+inductive Rejection where
+  | unsupported       -- version, chunker parameters, compression level
+  | invalidInput      -- min / max pack-size tolerate percent
+  | internal          -- a pack size / size limit that does not fit u32
+  deriving Repr, DecidableEq
+
 inductive ConfigChange where
   | setAppendOnly (b : Bool)
   | other (changes : Bool)      -- any option set without `set_append_only`; `changes` = alters the stored config
+  /-- options of which one fails validation inside `ConfigOptions::apply` (possibly together with `set_append_only`):
+  `apply_config` returns that error; the options were applied to a CLONE of the handle's config, which is dropped -/
+  | rejected (setAppendOnly : Option Bool) (why : Rejection)
   deriving Repr, DecidableEq
 
 /-- public operations (with the flags that matter for storage traffic). -/
@@ -88,6 +98,7 @@ inductive ErrKind where
   | appendOnly
   | repository
   | configuration
+  | validation (why : Rejection)
   deriving Repr, DecidableEq
 
 inductive Outcome where
@@ -118,7 +129,11 @@ def run (hotCold appendOnly : Bool) : Cmd → Outcome
   | .rewriteTrees forget dry => if forget && appendOnly then .refused .appendOnly
       else .runs (if dry then [] else dataWrites ++ [.write .snapshot] ++ (if forget then [.remove .snapshot] else []))
   | .applyConfig c =>
-    if appendOnly && c != .setAppendOnly false then .refused .appendOnly else .runs [.write .config]
+    match c with
+    | .rejected sao why =>
+      -- the guard comes first (`opts.set_append_only != Some(false)`), then `opts.apply(&mut clone)?`
+      if appendOnly && sao != some false then .refused .appendOnly else .refused (.validation why)
+    | c => if appendOnly && c != .setAppendOnly false then .refused .appendOnly else .runs [.write .config]
   | .addKey => .runs [.write .key]
   | .deleteKey => .runs [.remove .key]
   | .copyInto => .runs (dataWrites ++ [.write .snapshot])
@@ -250,6 +265,9 @@ def conforms (s : State) (e : Exec) : Bool :=
   | .refused _ => e.ops.isEmpty
   | .runs allowed => e.ops.all (fun o => allowed.contains o.kind)
 
+/-- `appendOnly` is the flag the guards of the issuing handle read (its in-memory config).  A refused command — in
+particular a refused or rejected `apply_config` — leaves it as it was (`Rustic.Config.applyConfigH`: the options are
+applied to a clone; `Props/C15.handle_flag_is_table_flag` ties the two models). -/
 def step (s : State) (e : Exec) : State :=
   { appendOnly :=
       (match e.cmd, run s.hotCold s.appendOnly e.cmd with
@@ -320,6 +338,18 @@ def expected (s : Scen) (cmd : String) : Option (String × String × Scen) :=
   | "init" => some ("err:Configuration", "-", s)
   | "reinit" => some ("ok", "w.config", { s with appendOnly := false, aoUnset := true })
   | "init_hot" => some ("ok", if s.hotCold then "w.config" else "-", s)
+  -- `apply_config` with an option value that `ConfigOptions::apply` rejects, alone (`tg`: plus a grow factor) or together
+  -- with `set_append_only`: guard first, then the validation error; nothing is written and the state stays as it is
+  | "config.ao0.xver" | "config.ao0.xchunk" | "config.ao0.xcomp" => some ("err:Unsupported", "-", s)
+  | "config.ao0.xtsize" | "config.ao0.xtlimit" | "config.ao0.xdsize" | "config.ao0.xdlimit" => some ("err:Internal", "-", s)
+  | "config.ao0.xminpct" | "config.ao0.xmaxpct" => some ("err:InvalidInput", "-", s)
+  | "config.ao1.xver" | "config.ao1.xchunk" | "config.ao1.xcomp" | "config.tg.xver" | "config.tg.xchunk" | "config.tg.xcomp" =>
+    if on then refusedAO else some ("err:Unsupported", "-", s)
+  | "config.ao1.xtsize" | "config.ao1.xtlimit" | "config.ao1.xdsize" | "config.ao1.xdlimit"
+  | "config.tg.xtsize" | "config.tg.xtlimit" | "config.tg.xdsize" | "config.tg.xdlimit" =>
+    if on then refusedAO else some ("err:Internal", "-", s)
+  | "config.ao1.xminpct" | "config.ao1.xmaxpct" | "config.tg.xminpct" | "config.tg.xmaxpct" =>
+    if on then refusedAO else some ("err:InvalidInput", "-", s)
   | _ => none
 
 /-- coarse result on damaged setups (the harness applies the same mapping to the real result): refused by a guard,
@@ -370,6 +400,18 @@ def cmdOfToken (cmd : String) : Option Cmd :=
   | "config.none" => some (.applyConfig (.other false))
   | "config.ao1" => some (.applyConfig (.setAppendOnly true))
   | "config.ao0" => some (.applyConfig (.setAppendOnly false))
+  | "config.ao0.xver" | "config.ao0.xchunk" | "config.ao0.xcomp" => some (.applyConfig (.rejected (some false) .unsupported))
+  | "config.ao0.xtsize" | "config.ao0.xtlimit" | "config.ao0.xdsize" | "config.ao0.xdlimit" =>
+    some (.applyConfig (.rejected (some false) .internal))
+  | "config.ao0.xminpct" | "config.ao0.xmaxpct" => some (.applyConfig (.rejected (some false) .invalidInput))
+  | "config.ao1.xver" | "config.ao1.xchunk" | "config.ao1.xcomp" => some (.applyConfig (.rejected (some true) .unsupported))
+  | "config.ao1.xtsize" | "config.ao1.xtlimit" | "config.ao1.xdsize" | "config.ao1.xdlimit" =>
+    some (.applyConfig (.rejected (some true) .internal))
+  | "config.ao1.xminpct" | "config.ao1.xmaxpct" => some (.applyConfig (.rejected (some true) .invalidInput))
+  | "config.tg.xver" | "config.tg.xchunk" | "config.tg.xcomp" => some (.applyConfig (.rejected none .unsupported))
+  | "config.tg.xtsize" | "config.tg.xtlimit" | "config.tg.xdsize" | "config.tg.xdlimit" =>
+    some (.applyConfig (.rejected none .internal))
+  | "config.tg.xminpct" | "config.tg.xmaxpct" => some (.applyConfig (.rejected none .invalidInput))
   | "key.add" => some .addKey
   | "key.del" => some .deleteKey
   | "check" | "restore" | "readonly" => some .readOnly
